@@ -49,9 +49,17 @@ G4(e, subj) == /\ subj.fam = "reorder" /\ IsReopen(e)
 KF4(e, subj) == G4(e, subj) /\ Accept
 
 (* C19-KF5: ZReorderMapBuilder rewrites an existing file in place (O_TRUNC, no temporary  *)
-(* file) and the format has no checksum: a torn rewrite is accepted.                      *)
+(* file) and the format has no checksum: a torn rewrite WHOSE RECORDS ARE CONSISTENT WITH  *)
+(* THE DECLARED ELEMENT COUNT is accepted.  Not covered: a map that stops in the middle of *)
+(* a run that was written (the reopened values end with a proper prefix of a written run): *)
+(* then the records overshoot the declared count, which open() is required to refuse.      *)
+(* wruns = the multi-element runs [start, len] the history wrote (reset event), tail = the *)
+(* last maximal run [start, len] of the reopened values.                                   *)
+EndsInsideWrittenRun(e, subj) ==
+    /\ e.tail /= <<>>
+    /\ \E i \in 1..Len(subj.wruns) : subj.wruns[i][1] = e.tail[1] /\ e.tail[2] < subj.wruns[i][2]
 G5(e, subj) == /\ subj.fam = "reorder" /\ IsReopen(e) /\ img.kind \in MixKinds
-               /\ e.outcome = "ok" /\ Rejected(e)
+               /\ e.outcome = "ok" /\ Rejected(e) /\ ~EndsInsideWrittenRun(e, subj)
 KF5(e, subj) == G5(e, subj) /\ Accept
 
 (* C19-KF6: SuffixArrayDictionary::save_to_file rewrites the dictionary file in place and *)
